@@ -6,6 +6,8 @@ import RV.Driver.Util
   counts are decimal.
 
     force  N G soft2 (m x y z)*N                          -> 3N   accBasicAll on Float
+    forceI/var1I/ad1I  ign N G ...                          -> 3N   the same under gravity_ignore_terms = ign
+    whjac/adwhjac G eta dt soft x y z dx dy dz             -> 6/3  WHFast Jacobi term and its variation / AD
     forceS/var1S/ad1S/ad2S  N_active tptype N G ...        -> 3N   the same with N_active < N (accBasicSplit/accVar1Split)
     var1   N G (m x y z)*N (dm dx dy dz)*N                -> 3N   accVar1 on Float (hand-derived loops)
     ad1    N G (m x y z)*N (dm dx dy dz)*N                -> 3N   ε-part of accBasicAll on Dual Float
@@ -81,6 +83,23 @@ def step (toks : List String) : String :=
     let all := gps rest
     let ps := (List.zipWith gpD (all.take n) (all.drop n))
     v3s ((accBasicAll (cD (fl g)) (cD 0.0) (Dual.sqrtLift sqrtF) ps).map (fun v => ⟨v.x.eps, v.y.eps, v.z.eps⟩))
+  | "forceI" :: ign :: n :: g :: s2 :: rest =>
+    v3s (accBasicIgn ign.toNat! (fl g) (fl s2) sqrtF ((gps rest).take n.toNat!))
+  | "var1I" :: ign :: n :: g :: rest =>
+    let n := n.toNat!
+    let all := gps rest
+    v3s (accVar1Ign ign.toNat! (fl g) sqrtF ((all.take n).zip (all.drop n)))
+  | "ad1I" :: ign :: n :: g :: rest =>
+    let n := n.toNat!
+    let all := gps rest
+    let ps := (List.zipWith gpD (all.take n) (all.drop n))
+    v3s ((accBasicIgn ign.toNat! (cD (fl g)) (cD 0.0) (Dual.sqrtLift sqrtF) ps).map (fun v => ⟨v.x.eps, v.y.eps, v.z.eps⟩))
+  | ["whjac", g, eta, dt, soft, x, y, z, dx, dy, dz] =>
+    v3s [whJacKick (fl g) (fl eta) (fl dt) (fl soft) sqrtF (fl x) (fl y) (fl z),
+         whJacKickVar (fl g) (fl eta) (fl dt) (fl soft) sqrtF (fl x) (fl y) (fl z) (fl dx) (fl dy) (fl dz)]
+  | ["adwhjac", g, eta, dt, _soft, x, y, z, dx, dy, dz] =>
+    let v := whJacKick (cD (fl g)) (cD (fl eta)) (cD (fl dt)) (cD 0.0) (Dual.sqrtLift sqrtF) ⟨fl x, fl dx⟩ ⟨fl y, fl dy⟩ ⟨fl z, fl dz⟩
+    v3s [⟨v.x.eps, v.y.eps, v.z.eps⟩]
   | "ad1soft" :: n :: g :: s2 :: rest =>
     let n := n.toNat!
     let all := gps rest
